@@ -98,6 +98,38 @@ def aborted_history(heap, root, cfg, victim):
     return first, None
 
 
+NOSUPPORT = 'does not support rendering trailing comments'
+
+
+def wrapped_case(heap, root, cfg):
+    """the objects of the graph under comment() / trailing_comment() wrappers, next to the bare
+    object: markers still only at back-references (the wrappers are not containers)"""
+    from prettyprinter import comment, trailing_comment
+    objs = G.build(heap)
+    picks = [r for r in range(len(heap)) if heap[r][0] != 'leaf'][:4]
+    if not picks:
+        return None
+    val, want = [], []
+    for r in picks:
+        u = G.unfold(objs[r], [])
+        val += [trailing_comment(objs[r], 'tail %d' % r), comment(objs[r], 'note %d' % r), objs[r]]
+        want += [trailing_comment(u, 'tail %d' % r), comment(u, 'note %d' % r), G.unfold(objs[r], [])]
+    if root % 2:
+        val = {'k': val, 'top': trailing_comment(objs[picks[0]], 'x')}
+        want = {'k': want, 'top': trailing_comment(G.unfold(objs[picks[0]], []), 'x')}
+    text, ws = G.run_impl(val, cfg)
+    ref, ws2 = G.run_impl(want, cfg)
+    if text.startswith('EXC'):
+        return 'pformat raised ' + text
+    other = [m for m in ws if NOSUPPORT not in m]
+    if other:
+        return 'warnings: ' + other[0][:100]
+    if text != ref:
+        return 'with comment wrappers around the objects, markers / shared substructure differ from the reference unfolding:\n%s\n--- expected ---\n%s' % (
+            text[:500], ref[:500])
+    return None
+
+
 def main(tier):
     run = Run(PROP, tier)
     built = run.build()
@@ -128,6 +160,15 @@ def main(tier):
             msg = oracle(heap, objs, root, cfg, text, ws, other)
             if msg and len(run.violations) < 3:
                 run.violation({'kind': 'oracle', 'detail': msg, 'heap': heap, 'root': root, 'cfg': cfg})
+        # the same graphs under comment wrappers (oracle only: the graph model has no wrapper nodes)
+        nwr = 0
+        for heap, root, cfg in cases[::(4 if tier == 'quick' else 2)]:
+            msg = wrapped_case(heap, root, cfg)
+            nwr += 1
+            run.count(1)
+            if msg and len(run.violations) < 3:
+                run.violation({'kind': 'wrapped', 'detail': msg, 'heap': heap, 'root': root, 'cfg': cfg})
+        run.coverage['comment_wrapped_graphs'] = nwr
         # interrupted prints leave no residue either
         nab = nreached = 0
         for heap, root, cfg in cases[::(3 if tier == 'quick' else 2)]:
@@ -157,7 +198,8 @@ def main(tier):
             'pformat of the real cyclic objects vs the model (stateful traversal -> tree -> pformat_model), visited '
             'set empty afterwards. Oracle: the text equals pformat of an acyclic copy built by a reference DFS in which '
             'exactly the back-references (objects among the ancestors) are marker objects; printing another value and '
-            'the same value again gives the same text; histories in which a print is interrupted inside a user printer by '
+            'the same value again gives the same text; the objects of the graph under comment() / trailing_comment() '
+            'wrappers next to the bare objects (oracle only); histories in which a print is interrupted inside a user printer by '
             'a BaseException (nothing returned), after which the same objects and every other object of the graph print '
             'as in a first call. non-trivial = cases whose root reaches a cycle')
         for k in (0, len(cases) // 2, len(cases) - 1):
@@ -173,6 +215,10 @@ def replay(path):
         return 1
     heap = [tuple(tuple(x) if isinstance(x, list) and n[0] == 'leaf' else x for x in n) for n in p['heap']]
     heap = [fix_node(n) for n in p['heap']]
+    if p.get('kind') == 'wrapped':
+        msg = wrapped_case(heap, p['root'], p['cfg'])
+        print('oracle:', msg)
+        return 1 if msg else 0
     if p.get('kind') == 'aborted':
         first, msg = aborted_history(heap, p['root'], p['cfg'], p['victim'])
         print(first, '\noracle:', msg)
